@@ -186,8 +186,52 @@ Definition gmw_correction (a b q qFinal rFinal : list wire) : M unit :=
   new_mux [isNeg] qMinus1 qHigh qFinal;;
   new_mux [isNeg] rPlusB rHigh rFinal.
 
-(* NewUDividerGoldschmidtFast(cc, a, b, qFinal, rFinal); len(a) = len(b) = n >= 1 *)
+(* muxResult(cc, cond, t, f, out) (/repo cfc357f): the result can be unused (nil),
+   narrower than the operands (truncated) or wider (zero-extended):
+   "for i := n; i < len(out); i++ { cc.ID(cc.ZeroWire(), out[i]) }" *)
+Fixpoint zero_ids (out : list wire) : M unit :=
+  match out with
+  | [] => ret tt
+  | o :: r => z <- zero_wire;; cc_id z o;; zero_ids r
+  end.
+
+Definition mux_result (cond : wire) (t f out : list wire) : M unit :=
+  let n := Nat.min (length out) (length t) in
+  (if Nat.ltb 0 n then new_mux [cond] (firstn n t) (firstn n f) (firstn n out) else ret tt);;
+  zero_ids (skipn n out).
+
+(* step 4 as committed in /repo cfc357f: the same computation as [gmw_correction],
+   the two final selections go through muxResult.  For destinations of the
+   operand width (len qFinal = len rFinal = len a) it emits exactly the gates of
+   [gmw_correction] (the form C07's correction theorems are stated for). *)
+Definition gmw_correction_w (a b q qFinal rFinal : list wire) : M unit :=
+  let n := length a in
+  qbLong <- fresh_n (2 * n);;
+  qbLong <- wallace_multiplier q b qbLong;;
+  let qb := firstn n qbLong in
+  r <- fresh_n (n + 1);;
+  r <- ks_subtractor a qb r;;
+  qMinus1 <- sub_const_one q;;
+  qPlus1 <- add_const_one q;;
+  rPlusB <- fresh_n n;;
+  rPlusB <- ks_adder (firstn n r) b rPlusB;;
+  rMinusB <- fresh_n (n + 1);;
+  rMinusB <- ks_subtractor (firstn n r) b rMinusB;;
+  let isNeg := nth n r 0%N in
+  isGe <- fresh;;
+  cc_inv (nth n rMinusB 0%N) isGe;;
+  qHigh <- fresh_n n;;
+  rHigh <- fresh_n n;;
+  new_mux [isGe] qPlus1 q qHigh;;
+  new_mux [isGe] (firstn n rMinusB) (firstn n r) rHigh;;
+  mux_result isNeg qMinus1 qHigh qFinal;;
+  mux_result isNeg rPlusB rHigh rFinal.
+
+(* NewUDividerGoldschmidtFast(cc, a, b, qFinal, rFinal) as of /repo cfc357f:
+   operands of any two widths ("a, b = cc.ZeroPad(a, b)", n = the common width
+   >= 1), results through muxResult *)
 Definition gmw_divider (a b qFinal rFinal : list wire) : M unit :=
+  '(a, b) <- zero_pad a b;;
   let n := length a in
   let useROM := Nat.leb 4 n in
   let m := if Nat.leb n rom_bits then (n - 1)%nat else rom_bits in
@@ -216,4 +260,4 @@ Definition gmw_divider (a b qFinal rFinal : list wire) : M unit :=
         ret (bCurr, aNorm2n, iterations_for_width n));;
   '(bCurr, qCurr) <- gs_iters iters n W qWidth twoConst bCurr qCurr;;
   let q := slice qCurr (n - 1) n in
-  gmw_correction a b q qFinal rFinal.
+  gmw_correction_w a b q qFinal rFinal.
